@@ -106,6 +106,17 @@ enum {
   MYTH_VP_FINI_DONE = 162     /* after the store of `uninit' */
 };
 
+/* point ids of the static-initialiser conversion (myth_handle_PTHREAD_MUTEX_INITIALIZER);
+   a = the mutex */
+enum {
+  MYTH_VP_SINIT_READ = 180,   /* after the first read of the magic word; v = value read */
+  MYTH_VP_SINIT_CAS = 181,    /* after the electing CAS; v = 1 won, 0 lost, -1 not attempted (read `initializing') */
+  MYTH_VP_SINIT_COPY = 182,   /* after `*m = mi' and the barrier; v = state word now in the object */
+  MYTH_VP_SINIT_DONE = 183,   /* after the store of myth_mutex_magic_no */
+  MYTH_VP_SINIT_WAIT = 184,   /* SPIN: one iteration of the wait loop */
+  MYTH_VP_SINIT_WAITED = 185  /* the wait loop ended; v = magic word now */
+};
+
 /* point ids of the sleep / timed-wait paths */
 enum {
   MYTH_VP_YIELD = 2000,          /* entry of myth_yield_ex_body; a = yielding thread, v = option */
